@@ -56,7 +56,7 @@ CHECKS = {
     'C14': {
         'text': 'Cancellation safety is put back as explicit obligations after dropping .await: at every former suspension point of REQ, REP, ROUTER, DEALER and PULL recv Verus proves the protocol-state fields equal their entry values and every queue item consumed so far has been completely dealt with (skipped by design, or failed and forgotten), so a dropped future owns nothing.',
         'design_ref': 'DESIGN.md 4 (C14)',
-        'note': 'Socket-state half only: cancel-safety of FairQueue::next / FramedRead::next / scc get_async is assumed. SUB/XPUB recv and proxy() not covered.',
+        'note': 'Cancel-safety of FramedRead::next / scc get_async is assumed. FairQueue::poll_next itself is under contract in sequential scope (on Pending the current waker is registered; streams are put back unless ended; items carry the key of their stream); wake-ups from other threads are not modelled. SUB/XPUB recv and proxy() not covered.',
         'technique': 'Verus await-point invariants spliced before each former .await of the extracted recv functions',
     },
     'C03': {
